@@ -615,8 +615,16 @@ func (u *Unit) contractCall(f *Frame, st *State, con *Contract, callee *ssa.Func
 	for _, e := range con.Ensures {
 		u.assume(st, penv.boolExpr(e.Expr))
 	}
+	if vacuityCalls && !f.pure && len(con.Ensures) > 0 {
+		// the assumed postcondition must not make the continuation unreachable
+		u.vacN++
+		u.em.obls = append(u.em.obls, &Obligation{Name: fmt.Sprintf("%s#vacuity#after-call%d:%s", u.unitName(), u.vacN, short), Kind: "vacuity", At: len(u.em.lines), PC: st.pc, Goal: "false", Func: u.unitName(), Unit: u})
+	}
 	return results
 }
+
+// vacuityCalls: also check reachability after every modular call (thorough tier).
+var vacuityCalls bool
 
 // havocAssigns applies the frame of a contract to the state.
 func (u *Unit) havocAssigns(f *Frame, st *State, env *SpecEnv, con *Contract, pos token.Pos) {
@@ -642,9 +650,33 @@ func (u *Unit) havocAssigns(f *Frame, st *State, env *SpecEnv, con *Contract, po
 		return
 	}
 	if len(con.Assigns) > 0 || con.Allocates {
+		before := st.alloc
 		n := u.em.fresh("alloc", "Int")
 		u.assume(st, fmt.Sprintf("(>= %s %s)", n, st.alloc))
 		st.alloc = n
+		if con.Allocates {
+			// the callee may have allocated objects: their contents are not those of the
+			// caller's heap maps at these (previously unallocated) addresses
+			for _, k := range sortedKeys(u.heapTy) {
+				t := u.heapTy[k]
+				if t == nil || strings.HasPrefix(k, "M_") || strings.HasPrefix(k, "VM_") {
+					continue
+				}
+				if _, used := st.heaps[k]; !used && st.lazyAlloc == "" {
+					continue // first touched later: handled lazily in heapGet
+				}
+				h0 := u.heapGet(st, k, t)
+				h1 := u.em.fresh(k, u.heapSortU(k, t))
+				u.assume(st, fmt.Sprintf("(forall ((r Int)) (! (=> (<= r %s) (= (select %s r) (select %s r))) :pattern ((select %s r))))", before, h1, h0, h1))
+				if ax := u.heapAxiom(k, h1, t, st.alloc); ax != "" {
+					u.em.assert(ax)
+				}
+				st.heaps[k] = h1
+			}
+			if st.lazyAlloc == "" {
+				st.lazyAlloc = before
+			}
+		}
 	}
 	for _, a := range con.Assigns {
 		ls := env.lvalue(a)
